@@ -548,6 +548,9 @@ func (msc *MinerSmartContract) payShardersAndDelegates(
 	balances cstate.StateContextI,
 ) error {
 	n := int64(len(rewardSharders))
+	if n == 0 {
+		return nil // no sharder to reward: nothing to divide (DistributeCoin would divide by zero)
+	}
 	sharderShare, totalCoinLeft, err := currency.DistributeCoin(reward, n)
 	if err != nil {
 		return err
